@@ -8,7 +8,7 @@ Specials == { <<SFF>>, <<SA, SFF, SA>>, <<SCR>>, <<SA, SCR>>, <<SA, SCR, SB>>, <
               <<SUEA>>, <<SUB, SB>>, <<SA, SB, SA, SB>>, <<SB, SA, SSP, SA, SB>>, <<SEA, SA>>, <<SA, SEA>> }
 MCLines == SetToSeq(SeqsUpTo(LineSyms, 3) \cup Specials)
 
-LitSyms == {SA, SB, SUA, SDOT, SEA}
+LitSyms == {SA, SB, SUA, SDOT, SEA, SUEA}
 Leaves == {ULit(c) : c \in LitSyms}
           \cup {UDot, UCls({SA, SB}, FALSE), UCls({SA}, TRUE), UCls({SUA, SEA}, FALSE), UWCls(FALSE), UWCls(TRUE)}
 Looks == {ULook("bol"), ULook("eol"), ULook("wb"), ULook("nwb")}
@@ -32,18 +32,34 @@ OptSets == { Plain, [Plain EXCEPT !.ci = TRUE], [Plain EXCEPT !.smart = TRUE], [
              [Plain EXCEPT !.crlf = TRUE, !.line = TRUE], [Plain EXCEPT !.smart = TRUE, !.word = TRUE] }
 
 Fams == {"l1", "cat", "alt", "grp", "fixed", "two"}
+\* C11: matcher-level option sets (inversion is not a matcher option) and extra families
+MatcherOptSets == {o \in OptSets : ~o.inv} \cup {[Plain EXCEPT !.nul = TRUE], [Plain EXCEPT !.ci = TRUE, !.crlf = TRUE],
+                                                 [Plain EXCEPT !.word = TRUE, !.crlf = TRUE]}
+C11Fams == Fams \cup {"lf", "inner"}
+C11Seeds == {[o |-> o, fam |-> f, pats |-> <<>>, fixed |-> FALSE] : o \in MatcherOptSets, f \in C11Fams}
+C11SeedsQuick == {s \in C11Seeds : s.fam \in {"l1", "alt", "grp", "lf", "inner", "two"}}
+WPlus == URep(UWCls(FALSE), 1, Inf, TRUE)
 QuickOptSets == { Plain, [Plain EXCEPT !.ci = TRUE], [Plain EXCEPT !.crlf = TRUE], [Plain EXCEPT !.word = TRUE],
                   [Plain EXCEPT !.line = TRUE, !.inv = TRUE], [Plain EXCEPT !.smart = TRUE, !.word = TRUE] }
 MCSeeds == {[o |-> o, fam |-> f, pats |-> <<>>, fixed |-> FALSE] : o \in OptSets, f \in Fams}
-MCSeedsQuick == {[o |-> o, fam |-> f, pats |-> <<>>, fixed |-> FALSE] : o \in QuickOptSets, f \in Fams}
+MCSeedsQuick == {[o |-> o, fam |-> f, pats |-> <<>>, fixed |-> FALSE] : o \in QuickOptSets, f \in (Fams \ {"cat"}) \cup {"catq"}}
 Sc(ps, o, fx) == [pats |-> ps, o |-> o, fixed |-> fx, fam |-> "", sel |-> <<>>]
 MCPatternsOf(sd) ==
   LET o == sd.o IN
   CASE sd.fam = "l1" -> {[sd EXCEPT !.pats = <<x>>] : x \in L1}
     [] sd.fam = "cat" -> {[sd EXCEPT !.pats = <<UCat(x, y)>>] : x \in L1, y \in L0}
+    [] sd.fam = "catq" -> {[sd EXCEPT !.pats = <<UCat(x, y)>>] : x \in L1, y \in {ULit(SA), ULook("wb"), UDot, ULit(SUEA)}}
     [] sd.fam = "alt" -> {[sd EXCEPT !.pats = <<UAlt(x, y)>>] : x \in L0, y \in L0}
     [] sd.fam = "grp" -> {[sd EXCEPT !.pats = <<UCat(UGrp(UAlt(x, y), TRUE), z)>>] : x \in Leaves, y \in Leaves, z \in {ULit(SA), ULook("wb")}}
     [] sd.fam = "fixed" -> {[sd EXCEPT !.pats = <<LitCat(s)>>, !.fixed = TRUE] : s \in FixedStrs}
+    [] sd.fam = "lf" -> {[sd EXCEPT !.pats = <<x>>] : x \in {ULit(SLF), UCat(ULit(SA), UCat(ULit(SLF), ULit(SB))), UAlt(ULit(SA), ULit(SLF)),
+                                                              UCls({SA, SLF}, FALSE), UCat(ULit(SA), URep(ULit(SLF), 0, 1, TRUE)), UCls({SA}, TRUE),
+                                                              UCat(URep(UCls({SA}, TRUE), 1, Inf, TRUE), ULit(SB)), ULit(SCR), UCat(ULit(SA), ULit(SCR))}}
+    [] sd.fam = "inner" -> {[sd EXCEPT !.pats = <<UCat(x, UCat(y, z))>>] :
+                              x \in {WPlus, URep(UDot, 0, Inf, TRUE), URep(UCls({SA, SB}, FALSE), 1, Inf, TRUE), ULook("wb"), UCat(WPlus, ULit(SB))},
+                              y \in {UCat(ULit(SA), ULit(SB)), UGrp(UAlt(UCat(ULit(SA), ULit(SB)), ULit(SUA)), TRUE), UCat(ULit(SEA), ULit(SA)),
+                                     URep(ULit(SA), 2, 2, TRUE), URep(ULit(SA), 12, 12, TRUE), UAlt(ULit(SB), UCat(ULit(SA), ULook("wb")))},
+                              z \in {WPlus, URep(UDot, 0, Inf, TRUE), ULit(SB), ULook("wb"), URep(ULit(SB), 0, 1, TRUE)}}
     [] sd.fam = "two" -> {[sd EXCEPT !.pats = <<x, y>>] : x \in Leaves, y \in {ULit(SUA), ULit(SB), UCat(ULit(SA), ULit(SB))}}
 MCWordSyms == {1, 2, 3, 4, 5, 6, 10, 11}
 TinySeeds == {[o |-> Plain, fam |-> "fixed", pats |-> <<>>, fixed |-> FALSE]}
